@@ -72,7 +72,10 @@ func GenC11Input(seed uint64, idx int, tier string) C11Case {
 		// pathological nesting: unlimited parse is exponential in depth
 		d := 5 + (idx - nSuite)
 		var s string
-		switch r.Intn(3) {
+		// the variant is fixed per depth (depth 7 is the plain one: about 2.2M
+		// steps, the largest input that still gets an unlimited reference in the
+		// quick tier, so budgets above 2^20 are exercised against a reference)
+		switch []int{2, 1, 0, 1, 2, 0, 1, 2, 0, 1, 2, 0}[(d-5)%12] {
 		case 0:
 			s = strings.Repeat("(", d) + "foo == 3" + strings.Repeat(")", d)
 		case 1:
@@ -81,7 +84,7 @@ func GenC11Input(seed uint64, idx int, tier string) C11Case {
 			s = strings.Repeat("( ", d) + "a in b and c != 4" + strings.Repeat(" )", d)
 		}
 		c := NewC11Case([]byte(s), fmt.Sprintf("nested-%d", d), tier)
-		c.NoRef = d >= 9 || (tier != "thorough" && d >= 7)
+		c.NoRef = d >= 9 || (tier != "thorough" && d >= 8)
 		return c
 	}
 	if idx < nSuite+20 {
@@ -397,8 +400,13 @@ func budgetsFor(c *C11Case, S uint64, r *plan.Rand) (bs []uint64, exhaustive boo
 		}
 	}
 	if !c.NoRef {
-		// very large budgets are unlimited in effect (and must not wrap around)
-		for _, n := range []uint64{1 << 31, 1<<32 + 1, 1 << 62, 1 << 63, ^uint64(0) - 1, ^uint64(0)} {
+		// very large budgets are unlimited in effect (and must not wrap around,
+		// be truncated or be clamped below the step count)
+		huge := []uint64{1 << 31, 1<<32 + 1, 1 << 62, 1 << 63, ^uint64(0) - 1, ^uint64(0)}
+		if 6*S >= costCap {
+			huge = []uint64{1<<32 + 1, ^uint64(0)} // each of them costs a full parse
+		}
+		for _, n := range huge {
 			add(n)
 		}
 	}
@@ -489,7 +497,7 @@ func RunC11Case(env *C11Env, c C11Case, seed uint64) C11Result {
 			return o, be
 		}
 		unlimited := func() uint64 {
-			refCap := uint64(60000000) // statements; about 2.6M parser steps
+			refCap := uint64(110000000) // statements; about 4.5M parser steps
 			if c.Tier == "thorough" {
 				refCap = 700000000
 			}
